@@ -938,6 +938,60 @@ def compressed_case(rec, rng):
         shutil.rmtree(root, ignore_errors=True)
 
 
+def reader_slow(file_info):
+    import time
+    time.sleep(0.03)
+    with open(file_info.path) as fh:
+        fid = int(fh.read())
+    time.sleep(0.03)
+    return fid
+
+
+def same_basename_case(rec, rng):
+    """Configuration: gzip-compressed files that all have the same base name (one per day directory), a
+    FileSet with its own temp_dir, several thread workers whose reads overlap (the reader takes 60 ms)."""
+    import gzip
+    from typhon.files import FileSet, FileHandler
+    root = scratch_dir("c10b")
+    try:
+        n = 6
+        day0 = dt.datetime(2017, rng.randrange(1, 12), 1)
+        paths, ids = [], []
+        for k in range(n):
+            d = day0 + D(days=k)
+            p_ = "%s/q/%s/data.dat.gz" % (root, d.strftime("%Y/%m/%d"))
+            os.makedirs(os.path.dirname(p_))
+            with gzip.open(p_, "wb") as gz:
+                gz.write(str(3001 + k).encode())
+            paths.append(p_)
+            ids.append(3001 + k)
+        os.makedirs(root + "/tmp")
+        fs = FileSet(path=root + "/q/{year}/{month}/{day}/data.dat.gz", name="B",
+                     handler=FileHandler(reader=reader_slow), worker_type="thread", temp_dir=root + "/tmp")
+        case = {"kind": "same-basename"}
+        rec.ev()
+        rec.count("exec.same_basename_filesets")
+        s0, s1 = day0 - D(days=1), day0 + D(days=n + 1)
+        try:
+            got = fs.map(sum_content, start=s0, end=s1, on_content=True, max_workers=3)
+            got2 = list(fs.icollect(s0, s1, max_workers=3))
+            if got != ids or got2 != ids:
+                rec.violation("results-wrong", case, {"why": "compressed files of one base name read by several "
+                                                             "thread workers, FileSet with its own temp_dir",
+                                                      "map": got, "icollect": got2, "want": ids})
+            elif os.listdir(root + "/tmp"):
+                rec.violation("results-wrong", case, {"why": "temporary files left in temp_dir",
+                                                      "left": os.listdir(root + "/tmp")[:4]})
+            else:
+                rec.nontriv(["same-basename"], n)
+        except Exception as exc:
+            rec.violation("unexpected-exception", case, {"exception": repr(exc),
+                                                         "trace": traceback.format_exc()[-1500:]})
+    finally:
+        gc.collect()
+        shutil.rmtree(root, ignore_errors=True)
+
+
 _LAZY = {"event": None, "last": None, "gave_up": False}
 
 
@@ -1004,6 +1058,7 @@ def run_shard(spec, rec):
         two_filesets_case(rec, rng_for(spec["seed"], "c10-two", spec["shard"]))
     if 11 <= spec["shard"] < 14:
         compressed_case(rec, rng_for(spec["seed"], "c10-gz", spec["shard"]))
+        same_basename_case(rec, rng_for(spec["seed"], "c10-base", spec["shard"]))
     if spec["kind"] == "enum":
         run_enum(spec, rec)
     elif spec["kind"] == "sampled":
@@ -1021,6 +1076,10 @@ def replay(case, rec):
     if case.get("kind") == "read-options":
         for k in range(3):
             read_options_case(rec, rng_for(k, "c10-readopt-replay"))
+        return
+    if case.get("kind") == "same-basename":
+        for k in range(3):
+            same_basename_case(rec, rng_for(k, "c10-base-replay"))
         return
     if case.get("kind") == "compressed":
         for k in range(3):
